@@ -49,7 +49,7 @@ Qed.
 (* ------------------------------------------------------------------ the index that the new writer reads from the directory *)
 Lemma init_listing w closed ocur lo mid red :
   quiet w -> kst c (wfs w) (wfs w) closed ocur lo mid red -> (lo < length closed \/ length closed = 0) ->
-  (N.of_nat (length closed) <= 100000)%N ->
+  (N.of_nat (length closed) <= u32_max)%N ->
   with_listing w (fun w' =>
      match get_highest_index (woff w') (c_spec c) (fixed_of c w') (wfs w') with
      | None => None
@@ -68,7 +68,7 @@ Definition init_view_k (closed : list bytes) (ocur : option bytes) : list bytes 
 (* ------------------------------------------------------------------ initialisation on the directory of a killed writer *)
 Lemma initialize_xdir w closed ocur lo mid red :
   quiet w -> kst c (wfs w) (wfs w) closed ocur lo mid red -> uncl k (length closed) lo mid ->
-  (lo < length closed \/ length closed = 0) -> (N.of_nat (S (length closed)) <= 100000)%N ->
+  (lo < length closed \/ length closed = 0) -> (N.of_nat (length closed) <= u32_max)%N ->
   exists w' wr roll,
     initialize c w = (Ok (Active (Some (mk_rsk k (NSNumR (N.of_nat (length (fst (init_view_k closed ocur))))) roll)) wr (cname c)), w')
     /\ NumKInv c w' wr (fst (init_view_k closed ocur))
@@ -83,13 +83,12 @@ Proof.
   assert (N1 : exists w1 cl1 oc1,
             init_naming c w NNumbers = (Ok (NSNumR (N.of_nat (length cl1)), cur_infix), w1) /\ same_env w w1
             /\ kst c (wfs w1) (wfs w1) cl1 oc1 lo mid red /\ uncl k (length cl1) lo mid
-            /\ (N.of_nat (length cl1) <= 100000)%N
             /\ (cl1, ocb oc1) = init_view_k closed ocur /\ (oc1 <> None -> c_append c = true)).
-  { unfold init_naming, index_for_rcurrent. rewrite (init_listing w closed ocur lo mid red Q K Hlo ltac:(lia)).
+  { unfold init_naming, index_for_rcurrent. rewrite (init_listing w closed ocur lo mid red Q K Hlo HL).
     unfold init_view_k, init_view_o. cbn [fst snd].
     destruct (c_append c) eqn:Happ; cbn [negb bind].
     - exists w, closed, ocur. split; [reflexivity|]. split; [apply same_env_refl; exact Q|]. split; [exact K|].
-      split; [exact U|]. split; [lia|]. split; [destruct ocur; reflexivity | auto].
+      split; [exact U|]. split; [destruct ocur; reflexivity | auto].
     - rewrite !(name_of_fixed c w) by assumption. fold (nm c cur_infix) (nm c (number_infix (N.of_nat (length closed)))).
       fold (cname c) (rname c (length closed)).
       pose proof (p_rename_quiet w (cname c) (rname c (length closed)) Q) as PR.
@@ -102,12 +101,12 @@ Proof.
         assert (EL : length (closed ++ [cu]) = S (length closed)) by (rewrite app_length; cbn [length]; lia).
         split. { rewrite EL. replace (N.of_nat (length closed) + 1)%N with (N.of_nat (S (length closed))) by lia. reflexivity. }
         split; [exact S1|]. split; [rewrite F1; exact (kst_rename_cur _ _ _ _ _ _ _ _ K Er)|].
-        split; [rewrite EL; apply uncl_grow; exact U|]. split; [rewrite EL; exact HL|]. split; [reflexivity | congruence].
+        split; [rewrite EL; apply uncl_grow; exact U|]. split; [reflexivity | congruence].
       + assert (Lc : lookup (wfs w) (cname c) = None) by (apply file_of_none; exact (xd_cur _ _ _ _ _ _ _ (ks_x _ _ _ _ _ _ _ _ K))).
         rewrite rename_none in PR by exact Lc. rewrite PR. cbn [bind].
         exists w, closed, None. split; [reflexivity|]. split; [apply same_env_refl; exact Q|]. split; [exact K|].
-        split; [exact U|]. split; [lia|]. split; [reflexivity | congruence]. }
-  destruct N1 as (w1 & cl1 & oc1 & En & S1 & K1 & U1 & HL1 & Ev & Happ1).
+        split; [exact U|]. split; [reflexivity | congruence]. }
+  destruct N1 as (w1 & cl1 & oc1 & En & S1 & K1 & U1 & Ev & Happ1).
   (* the current file is opened *)
   assert (O2 : exists w2 ino fl,
             open_log_file c w1 (Some cur_infix) = (Ok ({| wino := ino; wpend := []; wcap := c_cap c |}, cname c), w2) /\ same_env w1 w2
@@ -148,7 +147,7 @@ Proof.
       subst oc1. apply roll_new_fresh. }
   destruct RN as (roll & Ern & Z & RS).
   (* the cleanup repairs the directory *)
-  destruct (cleanup_xdir c crit k n m w2 cl1 (Some (ocb oc1)) lo mid red Hcfg Hsfx HL1 Hk Q2 K2) as (w4 & Ec & S4 & K4).
+  destruct (cleanup_xdir c crit k n m w2 cl1 (Some (ocb oc1)) lo mid red Hcfg Hsfx Hk Q2 K2) as (w4 & Ec & S4 & K4).
   assert (Emax : Nat.max lo (length cl1 - (n + m)) = k_lo k (length cl1) /\ Nat.max mid (length cl1 - n) = k_mid k (length cl1)).
   { destruct U1 as [U1a U1b]. unfold k_lo, k_mid in *. rewrite Hk in *. lia. }
   destruct Emax as [-> ->] in K4.
@@ -193,21 +192,21 @@ Definition PreK (x : sys) (v : oview) : Prop :=
   s_tl x = [] /\ wacts (s_w x) = 0 /\ s_flw x = Some (new_flw c) /\ quiet (s_w x) /\ Based (wfs (s_w x)) (fst v) (snd v).
 
 Lemma first_write_k x v b :
-  PreK x v -> (N.of_nat (S (S (length (fst v)))) <= 100000)%N ->
+  PreK x v -> (N.of_nat (length (fst v)) <= u32_max)%N ->
   exists w' s' rot,
     write_buffer (new_flw c) (s_w x) b = (Ok tt, w', s', rot)
     /\ RelK c crit k {| s_flw := Some s'; s_w := w'; s_tl := []; s_dead := s_dead x |}
            (a_step (Some (init_view_o c v)) (OWrite b) rot).
 Proof.
   intros (Ht & Ha & Es & Q & (lo & mid & red & K & U & Hlo)) HL. destruct v as [cl oc]. cbn [fst snd] in *.
-  destruct (initialize_xdir (s_w x) cl oc lo mid red Q K U Hlo ltac:(lia)) as (w1 & wr & roll & Ei & I & V & Z & S1 & RS).
+  destruct (initialize_xdir (s_w x) cl oc lo mid red Q K U Hlo HL) as (w1 & wr & roll & Ei & I & V & Z & S1 & RS).
   unfold init_view_k in *. destruct (init_view_o c (cl, oc)) as [cl1 cu1] eqn:Ev. cbn [fst snd] in *.
   assert (Hl1 : length cl1 <= S (length cl)).
   { unfold init_view_o in Ev. cbn [fst snd] in Ev. destruct oc as [cu|]; [destruct (c_append c)|]; injection Ev as <- _;
       rewrite ?app_length; cbn [length]; lia. }
   assert (Z0 : roll_size_ok roll (length (cur_view w1 wr))) by (rewrite V; exact Z).
   assert (Hs : rotation_necessary w1 roll = true -> kside c k (S (length cl1))).
-  { intros _. unfold kside. rewrite Hk. split; [exact Hsfx | lia]. }
+  { intros _. unfold kside. rewrite Hk. exact Hsfx. }
   destruct (NumCleanupRun.write_active_k c crit k w1 wr cl1 roll b Hcfg I Z0 Hs) as [w' [wr' [roll' [closed' [E [I' [Z' [S' [V' [R' _]]]]]]]]]].
   exists w', (st_ofk c k (length closed') roll' wr'), (rotation_necessary w1 roll).
   split. { rewrite (write_buffer_init c (s_w x) b _ _ _ w1 Ei). exact E. }
@@ -243,7 +242,7 @@ Proof.
 Qed.
 
 Lemma gstep_rel_k x v a o :
-  GRelK x v a -> basic_op o -> (N.of_nat (S (gp v a)) <= 100000)%N ->
+  GRelK x v a -> basic_op o -> (N.of_nat (length (fst v)) <= u32_max)%N ->
   let '(x', ob) := step x o in GRelK x' v (g_step_o c v a o (rot_of ob)) /\ obs_ok ob.
 Proof.
   intros G Ho HL. destruct a as [p|].
@@ -251,12 +250,10 @@ Proof.
     pose proof (step_rel_k_ok c crit k x (Some p) o Hcfg G Ho) as Kk.
     destruct (step x o) as [x' ob]. cbn [snd] in Kk.
     assert (Hs : kside c k (nclosed (a_step (Some p) o (rot_of ob)))).
-    { unfold kside. rewrite Hk. split; [exact Hsfx|]. destruct p as [cl cu]. cbn [gp] in HL.
-      pose proof (a_step_apot (Some (cl, cu)) o (rot_of ob)) as H. cbn [apot] in H.
-      change (nclosed (a_step (Some (cl, cu)) o (rot_of ob))) with (apot (a_step (Some (cl, cu)) o (rot_of ob))). lia. }
+    { unfold kside. rewrite Hk. exact Hsfx. }
     destruct (S Hs) as [R1 _]. split; [|exact (Kk Hs)].
     destruct (a_step_some p o (rot_of ob)) as [q Eq]. rewrite Eq in *. exact R1.
-  - cbn [GRelK] in G. rewrite (step_sync_prek x v o G). cbn [gp] in HL.
+  - cbn [GRelK] in G. rewrite (step_sync_prek x v o G).
     pose proof G as (Ht & Ha & Es & Q & B).
     destruct o; try contradiction; cbn [sync_step].
     + (* OWrite *)
@@ -284,14 +281,14 @@ Proof.
       cbn [rot_of g_step_o GRelK]. split; [exact G | exact Logic.I].
 Qed.
 
-Lemma grun_rel_k v : forall ops x a, GRelK x v a -> Forall basic_op ops -> (N.of_nat (S (gp v a + length ops)) <= 100000)%N ->
+Lemma grun_rel_k v : forall ops x a, GRelK x v a -> Forall basic_op ops -> (N.of_nat (length (fst v)) <= u32_max)%N ->
   GRelK (fst (run x ops)) v (g_run_o c v a ops (snd (run x ops))) /\ Forall obs_ok (snd (run x ops)).
 Proof.
   induction ops as [|o r IH]; intros x a G Hbo HL; [split; [exact G | constructor]|].
-  cbn [run]. inversion Hbo as [|o' r' Ho Hr]; subst. cbn [length] in HL.
-  pose proof (gstep_rel_k x v a o G Ho ltac:(lia)) as S. destruct (step x o) as [x1 ob]. destruct S as [S Kk].
+  cbn [run]. inversion Hbo as [|o' r' Ho Hr]; subst.
+  pose proof (gstep_rel_k x v a o G Ho HL) as S. destruct (step x o) as [x1 ob]. destruct S as [S Kk].
   pose proof (gp_step v a o (rot_of ob)) as Hg.
-  specialize (IH x1 _ S Hr ltac:(lia)). destruct (run x1 r) as [x2 obs]. cbn [fst snd g_run_o] in *.
+  specialize (IH x1 _ S Hr HL). destruct (run x1 r) as [x2 obs]. cbn [fst snd g_run_o] in *.
   split; [apply IH | constructor; [exact Kk | apply IH]].
 Qed.
 
@@ -344,7 +341,7 @@ Qed.
 
 (* ---- one whole run on the directory of a killed writer ---- *)
 Lemma one_run_k x cl oc ops :
-  IdleK c k x cl oc -> Forall basic_op ops -> (N.of_nat (S (S (length cl) + length ops)) <= 100000)%N ->
+  IdleK c k x cl oc -> Forall basic_op ops -> (N.of_nat (length cl) <= u32_max)%N ->
   Forall obs_ok (snd (run x (OStart c :: ops ++ [OStop])))
   /\ exists pre closed ocur lo,
        kill_view c (wfs (s_w (fst (run x (OStart c :: ops ++ [OStop]))))) closed ocur lo
@@ -358,7 +355,7 @@ Proof.
   intros Id Hops HL. cbn [run]. destruct (start_prek x cl oc Id) as (pre & cl' & P0 & K0 & Ec & Hp & Hl).
   destruct (step x (OStart c)) as [x0 ob0]. cbn [fst snd] in P0, K0.
   rewrite run_app. set (v := (cl', oc)) in *.
-  destruct (grun_rel_k v ops x0 None P0 Hops ltac:(cbn [gp fst v]; lia)) as [G1 K1]. pose proof (run_length ops x0) as Len.
+  destruct (grun_rel_k v ops x0 None P0 Hops ltac:(cbn [fst v]; lia)) as [G1 K1]. pose proof (run_length ops x0) as Len.
   destruct (run x0 ops) as [x1 obs1]. cbn [fst snd] in *.
   destruct (stop_k x1 v _ G1) as [K2 S]. cbn [run]. destruct (step x1 OStop) as [x2 ob2]. cbn [fst snd] in *.
   split; [constructor; [exact K0|]; apply Forall_app; split; [exact K1 | constructor; [exact K2 | constructor]]|].
@@ -393,11 +390,15 @@ End Restart.
    - once the new writer has written a record, the leftovers are gone: the directory has exactly the shape that a run without
      kill leaves (kreader_view: plain files for the newest n closed files, complete archives for the next m, rCURRENT). The repair
      happens in the initialisation, which the code performs with the first write: the archive next to an original is removed
-     (redundant_gz), the original is compressed again by the cleanup if it is beyond the limit for plain files. *)
+     (redundant_gz), the original is compressed again by the cleanup if it is beyond the limit for plain files.
+   Side conditions: the suffix does not end with .gz; the number of the files closed by the killed writer (at most
+   1 + the number of its operations) fits into u32 - the new writer reads the highest index from the directory and parses
+   it as u32 (get_highest_index), as in the restart theorems without cleanup (NumRestart.v, NumKillRestart.v).  The order
+   of the listing needs no bound any more. *)
 Theorem numbers_cleanup_kill_restart c crit k n m t0 off ops1 kp ops2 ops3 :
   numkcfg c crit k -> klim k = Some (n, m) -> c_cap c = None -> sfx_ok (c_spec c) ->
   Forall basic_op ops1 -> Forall basic_op ops2 -> Forall basic_op ops3 ->
-  (N.of_nat (length ops1 + length ops2 + length ops3 + 3) <= 100000)%N ->
+  (N.of_nat (S (length ops1 + length ops2)) <= u32_max)%N ->
   let x1 := fst (run (sys0 t0 off) (OStart c :: ops1 ++ [OSetKill kp])) in
   let xk := fst (run (sys0 t0 off) (OStart c :: ops1 ++ [OSetKill kp] ++ ops2 ++ [OCrash])) in
   let r2 := run xk (OStart c :: ops3 ++ [OStop]) in
@@ -413,7 +414,7 @@ Theorem numbers_cleanup_kill_restart c crit k n m t0 off ops1 kp ops2 ops3 :
                /\ kreader_view c (wfs (s_w (fst r2))) closed cu lo (length closed - n)).
 Proof.
   intros Hcfg Hk Hcap Hsfx Hb1 Hb2 Hb3 HL x1 xk r2.
-  destruct (kill_history_k c crit k n m Hcfg Hk Hcap Hsfx t0 off ops1 kp ops2 Hb1 Hb2 ltac:(lia)) as (cl & oc & Id & F & Len).
+  destruct (kill_history_k c crit k n m Hcfg Hk Hcap Hsfx t0 off ops1 kp ops2 Hb1 Hb2) as (cl & oc & Id & F & Len).
   fold xk in Id. fold x1 in F.
   destruct (one_run_k c crit k n m Hcfg Hk Hsfx xk cl oc ops3 Id Hb3 ltac:(lia)) as [Kk (pre & closed & ocur & lo & V & E & Hlo & Hp & Hr)].
   split; [exact Kk|]. exists pre, closed, ocur, lo. rewrite F in E.
